@@ -6,7 +6,8 @@ use ippref::WMsg;
 use vkit::gen::{self, G1Cfg};
 use vkit::rng::Rng;
 
-pub const HOSTILE: [&str; 7] = ["tails", "grid", "withlang", "tokens", "mutations", "bytes12", "chains"];
+pub const HOSTILE: [&str; 8] = ["tails", "grid", "withlang", "tokens", "mutations", "bytes12", "chains", "pairs"];
+pub const PAIR_LENS: [usize; 24] = [0, 1, 2, 31, 32, 33, 63, 64, 65, 100, 120, 127, 128, 129, 200, 255, 256, 257, 1023, 1024, 1025, 4095, 4096, 4097];
 pub const CHAIN_LENS: [usize; 5] = [12, 256, 4096, 32764, 65535];
 pub const CHAIN_WORDS: usize = 10;
 
@@ -92,6 +93,9 @@ impl Ctx {
             "bytes12" => 256 * 256 * 5,
             // every tag x periodic self-describing bodies (a decoder that interprets value bytes as further tags / lengths recurses or loops on these)
             "chains" => 256 * CHAIN_LENS.len() as u64 * CHAIN_WORDS as u64,
+            // two consecutive elements of every pair of lengths (state carried from one name / value / member to the next:
+            // reused buffers, remembered capacities), as names, as values, as member names and as member values
+            "pairs" => 4 * (PAIR_LENS.len() * PAIR_LENS.len()) as u64,
             "mutations" => {
                 if self.thorough() {
                     2_000_000
@@ -182,6 +186,58 @@ impl Ctx {
                 v.extend_from_slice(&body);
                 v.push(0x03);
                 (v, format!("chains tag={tag:#04x} len={} word={w}", body.len()))
+            }
+            "pairs" => {
+                let n = PAIR_LENS.len() as u64;
+                let kind = idx / (n * n);
+                let (l1, l2) = (PAIR_LENS[((idx / n) % n) as usize], PAIR_LENS[(idx % n) as usize]);
+                let name = |c: u8, l: usize| -> Vec<u8> { (0..l).map(|i| if i == 0 { c } else { b'a' + (i % 26) as u8 }).collect() };
+                let mut v = gen::HDR.to_vec();
+                v.push(0x01);
+                let mut tnv = |tag: u8, nm: &[u8], val: &[u8]| {
+                    v.push(tag);
+                    v.extend_from_slice(&(nm.len() as u16).to_be_bytes());
+                    v.extend_from_slice(nm);
+                    v.extend_from_slice(&(val.len() as u16).to_be_bytes());
+                    v.extend_from_slice(val);
+                };
+                match kind {
+                    0 => {
+                        tnv(0x21, &name(b'x', l1.max(1)), &[0, 0, 0, 1]);
+                        tnv(0x21, &name(b'y', l2.max(1)), &[0, 0, 0, 2]);
+                        tnv(0x21, b"z", &[0, 0, 0, 3]);
+                    }
+                    1 => {
+                        tnv(0x41, b"a", &name(b'v', l1));
+                        tnv(0x41, b"b", &name(b'w', l2));
+                        tnv(0x30, b"c", &name(0xff, l1.min(l2)));
+                    }
+                    2 => {
+                        tnv(0x34, b"c", b"");
+                        tnv(0x4a, b"", &name(b'm', l1));
+                        tnv(0x21, b"", &[0, 0, 0, 1]);
+                        tnv(0x4a, b"", &name(b'n', l2));
+                        tnv(0x21, b"", &[0, 0, 0, 2]);
+                        tnv(0x37, b"", b"");
+                    }
+                    _ => {
+                        tnv(0x34, b"c", b"");
+                        tnv(0x4a, b"", b"m");
+                        tnv(0x44, b"", &name(b'k', l1));
+                        tnv(0x44, b"", &name(b'l', l2));
+                        tnv(0x4a, b"", b"n");
+                        tnv(0x35, b"", &{
+                            let mut b = (l1.min(200) as u16).to_be_bytes().to_vec();
+                            b.extend(name(b'e', l1.min(200)));
+                            b.extend((l2.min(200) as u16).to_be_bytes());
+                            b.extend(name(b't', l2.min(200)));
+                            b
+                        });
+                        tnv(0x37, b"", b"");
+                    }
+                }
+                v.push(0x03);
+                (v, format!("pairs kind={kind} lengths=({l1},{l2})"))
             }
             "tokens" => {
                 let mut i = idx;
